@@ -25,9 +25,13 @@ ancestor of `t`. A scope `t` is *below the sink* when `Up st t snk`.
 Evaluator level (`eval` itself, single statements): `eval_plain_identifier_reads` (a variable read leaves the
 state), `eval_let_statement_frame` (the `let v` node), `eval_assign_statement_frame` (`v := w` for plain
 identifiers: read, read, `identSet` = `setValue`), `block_scope_keeps_outside` (`newChild`, the block scopes).
-What is NOT here (stated, not proved): the induction over `eval` for whole bodies — sequencing in the
-`statements` node, arithmetic, `if`, x.* calls — that would show "a body in the fragment performs only such
-steps"; and composing allocation (`newChild`) into `writes_frame`.
+Whole bodies: `eval_statements_frame` (the sequencing induction over the `statements` node of `eval`, for any
+statements satisfying `StmtOK`), `fragment_body_frame` / `sink_body_leaves_others_alone`: a body of `let v` and
+`v := w` statements evaluated by `Ecal.Ev.eval` in the sink scope writes nothing outside the sink's sub-tree —
+`hW` for this fragment with no hypothesis about what evaluation writes.
+What is NOT here (stated, not proved): `StmtOK` for the other statements of the intended fragment — arithmetic
+and literals on the right side, `if` (needs allocation: `block_scope_keeps_outside` is only the single step and
+`Frame` is size-preserving), x.* calls — and the READ half of isolation.
 -/
 namespace Ecal.Props.C11Frame
 open Ecal.Ev
@@ -564,5 +568,204 @@ example : ∃ st', runWrites [Write.letv 1 [120] (.num 1)] demo2 = some st' ∧
     ⟨⟨[120], by decide, Up.refl 1, by decide⟩, fun _ _ => trivial⟩ rfl
     (demo2_not_up 1 2 (Or.inl ⟨rfl, rfl⟩)) (demo2_not_up 2 1 (Or.inr ⟨rfl, rfl⟩))
   exact ⟨h.1 2 (Up.refl 2), h.2 0 (Up.step (show (demo2.scope 1).parent = some 0 from rfl) (Up.refl 0)) (by decide)⟩
+
+/-! ### whole bodies: sequencing in the `statements` node of `eval` -/
+
+/-- what a statement of the fragment needs to know about the state it is evaluated in -/
+structure Ctx (snk sc : Nat) (names : List String) (s : St) : Prop where
+  wf : ScopesWF s
+  snk_lt : snk < s.scopes.size
+  sc_lt : sc < s.scopes.size
+  below : Up s sc snk
+  fresh : ∀ v ∈ names, NoOuterDef s snk v
+
+/-- a `Frame` step keeps the context: the declaring chain is not below the sink, so it is unchanged -/
+theorem Ctx.step {snk sc : Nat} {names : List String} {s s' : St} (c : Ctx snk sc names s) (h : Frame snk s s') :
+    Ctx snk sc names s' where
+  wf := h.wf c.wf
+  snk_lt := by rw [h.size_eq]; exact c.snk_lt
+  sc_lt := by rw [h.size_eq]; exact c.sc_lt
+  below := (up_congr h.parent_eq).mpr c.below
+  fresh v hv a ha hne := by
+    have ha0 : Up s snk a := (up_congr h.parent_eq).mp ha
+    have hnot : ¬ Up s a snk := by
+      intro hback
+      have h1 : a ≤ snk := up_le s c.wf ha0 c.snk_lt
+      have h2 : snk ≤ a := up_le s c.wf hback (Nat.lt_of_le_of_lt h1 c.snk_lt)
+      exact hne (Nat.le_antisymm h1 h2)
+    have := c.fresh v hv a ha0 hne
+    simpa [St.defines, h.keep a hnot] using this
+
+/-- a statement node is in the fragment (for evaluation with fuel `f` in scope `sc`): whenever it evaluates
+    successfully in a context, its effect is a `Frame` step -/
+def StmtOK (snk f sc : Nat) (names : List String) (c : Ecal.Parse.Node) : Prop :=
+  ∀ s s' x, Ctx snk sc names s → runM (eval f sc c) s = (.ok x, s') → Frame snk s s'
+
+theorem forIn_frame (snk f sc : Nat) (names : List String)
+    (F : Option Ecal.Parse.Node → Val → M (ForInStep Val))
+    (hF : ∀ c' r0 s, runM (F (some c') r0) s =
+      match runM (eval f sc c') s with
+      | (.ok res, s1) => (.ok (ForInStep.yield res), s1)
+      | (.error e, s1) => (.error e, s1)) :
+    ∀ (l : List (Option Ecal.Parse.Node)) (init : Val) (s s' : St) (r : Val),
+    (∀ c ∈ l, ∃ c', c = some c' ∧ StmtOK snk f sc names c') → Ctx snk sc names s →
+    runM (forIn l init F) s = (.ok r, s') → Frame snk s s' := by
+  intro l
+  induction l with
+  | nil =>
+    intro init s s' r _ _ h
+    simp only [List.forIn_nil, runM_pure] at h
+    injection h with _ h2
+    subst h2
+    exact Frame.refl snk s
+  | cons c l ih =>
+    intro init s s' r hall hctx h
+    obtain ⟨c', hc, hok⟩ := hall c (List.mem_cons_self ..)
+    subst hc
+    simp only [List.forIn_cons] at h
+    rw [runM_bind, hF] at h
+    cases he : runM (eval f sc c') s with
+    | mk r1 s1 =>
+      rw [he] at h
+      cases r1 with
+      | error e => simp at h
+      | ok v =>
+        simp only at h
+        have f1 := hok s s1 v hctx he
+        exact f1.trans (ih v s1 s' r (fun c hc => hall c (List.mem_cons_of_mem _ hc)) (hctx.step f1) h)
+
+/-- **eval_statements_frame** (the sequencing induction). A `statements` node all of whose children are
+    fragment statements (`StmtOK`), evaluated successfully by `eval` in a context: its whole effect is a
+    `Frame` step — every scope outside the sink's sub-tree is unchanged. -/
+theorem eval_statements_frame (snk f sc : Nat) (names : List String) (n : Ecal.Parse.Node)
+    (hname : n.name = "statements")
+    (hall : ∀ c ∈ n.children, ∃ c', c = some c' ∧ StmtOK snk f sc names c')
+    (st st' : St) (x : Val) (hctx : Ctx snk sc names st)
+    (h : runM (eval (f + 1) sc n) st = (.ok x, st')) : Frame snk st st' := by
+  unfold eval at h
+  simp only [hname] at h
+  rw [runM_bind] at h
+  split at h
+  · rename_i a s1 heq
+    simp only [runM_pure] at h
+    injection h with _ h2
+    subst h2
+    refine forIn_frame snk f sc names _ ?_ n.children Val.null st s1 a hall hctx heq
+    intro c' r0 s
+    rw [runM_bind]
+    cases runM (eval f sc c') s with
+    | mk r1 s2 => cases r1 <;> rfl
+  · simp at h
+
+/-- the `let v` statement node for a plain identifier -/
+def IsLet (c : Ecal.Parse.Node) : Prop :=
+  ∃ (lv : Ecal.Parse.Node) (t : Ecal.Lex.Tok) (vb : List Nat), c.name = "let" ∧ c.children[0]? = some (some lv) ∧
+    lv.name = "identifier" ∧ lv.children.isEmpty = true ∧ lv.tok = some t ∧ splitDots t.val = [vb]
+
+/-- the statement node `v := w` for plain identifiers, `v` one of `names` -/
+def IsAssign (names : List String) (c : Ecal.Parse.Node) : Prop :=
+  ∃ (lhs rhs : Ecal.Parse.Node) (tl tr : Ecal.Lex.Tok) (vl vr : List Nat),
+    c.name = ":=" ∧ c.children[0]? = some (some lhs) ∧ c.children[1]? = some (some rhs) ∧
+    lhs.name = "identifier" ∧ lhs.children.isEmpty = true ∧ lhs.tok = some tl ∧ splitDots tl.val = [vl] ∧
+    rhs.name = "identifier" ∧ rhs.children.isEmpty = true ∧ rhs.tok = some tr ∧ splitDots tr.val = [vr] ∧
+    bytesToString vl ∈ names
+
+theorem stmtOK_let (snk f sc : Nat) (names : List String) (c : Ecal.Parse.Node) (h : IsLet c) :
+    StmtOK snk (f + 3) sc names c := by
+  obtain ⟨lv, t, vb, h1, h2, h3, h4, h5, h6⟩ := h
+  intro s s' x hctx hr
+  exact eval_let_statement_frame snk f sc c lv t vb s s' x h1 h2 h3 h4 h5 h6 hctx.sc_lt hctx.below hr
+
+theorem stmtOK_assign (snk f sc : Nat) (names : List String) (c : Ecal.Parse.Node) (h : IsAssign names c) :
+    StmtOK snk (f + 4) sc names c := by
+  obtain ⟨lhs, rhs, tl, tr, vl, vr, h1, h2, h3, h4, h5, h6, h7, h8, h9, h10, h11, h12⟩ := h
+  intro s s' x hctx hr
+  exact eval_assign_statement_frame snk f sc c lhs rhs tl tr vl vr s s' x h1 h2 h3 h4 h5 h6 h7 h8 h9 h10 h11
+    hctx.below (hctx.fresh _ h12) hr
+
+/-- **fragment_body_frame** — `hW` for the fragment as a theorem about `eval`. A sink body that is a
+    `statements` node whose statements are `let v` and `v := w` (plain identifiers; every assigned `v` is
+    one of `names`, none of which the declaring chain defines), evaluated by the REAL evaluator model
+    `Ecal.Ev.eval` in its sink scope `snk` (or in a scope `sc` below it) of a well-formed scope table,
+    successfully: every scope that is not below the sink — the declaring scope, the global scope, the
+    scopes of every other invocation — is exactly as before; the table's size and parent links are
+    unchanged and it stays well-formed. No hypothesis about what the evaluation writes is assumed. -/
+theorem fragment_body_frame (snk f sc : Nat) (names : List String) (n : Ecal.Parse.Node)
+    (hname : n.name = "statements")
+    (hall : ∀ c ∈ n.children, ∃ c', c = some c' ∧ (IsLet c' ∨ IsAssign names c'))
+    (st st' : St) (x : Val) (hctx : Ctx snk sc names st)
+    (h : runM (eval (f + 5) sc n) st = (.ok x, st')) : Frame snk st st' := by
+  refine eval_statements_frame snk (f + 4) sc names n hname ?_ st st' x hctx h
+  intro c hc
+  obtain ⟨c', e, hk⟩ := hall c hc
+  refine ⟨c', e, ?_⟩
+  rcases hk with hk | hk
+  · exact stmtOK_let snk (f + 1) sc names c' hk
+  · exact stmtOK_assign snk f sc names c' hk
+
+/-- **sink_body_leaves_others_alone**: for such a body evaluated in the sink scope of invocation A, every
+    scope of another invocation B (sink scope `snkB`, neither above nor below A's) and every scope of the
+    declaring chain is untouched — the write half of isolation, for the fragment, about `eval`. -/
+theorem sink_body_leaves_others_alone (snkA snkB f : Nat) (names : List String) (n : Ecal.Parse.Node)
+    (hname : n.name = "statements")
+    (hall : ∀ c ∈ n.children, ∃ c', c = some c' ∧ (IsLet c' ∨ IsAssign names c'))
+    (st st' : St) (x : Val) (hctx : Ctx snkA snkA names st)
+    (h : runM (eval (f + 5) snkA n) st = (.ok x, st'))
+    (hAB : ¬ Up st snkA snkB) (hBA : ¬ Up st snkB snkA) :
+    (∀ t, Up st t snkB → st'.scope t = st.scope t) ∧
+    (∀ a, Up st snkA a → a ≠ snkA → st'.scope a = st.scope a) := by
+  have hf := fragment_body_frame snkA f snkA names n hname hall st st' x hctx h
+  refine ⟨fun t ht => hf.keep t (disjoint_subtrees st snkA snkB t ht hAB hBA), ?_⟩
+  intro a ha hne
+  apply hf.keep a
+  intro hback
+  have h1 : a ≤ snkA := up_le st hctx.wf ha hctx.snk_lt
+  have h2 : snkA ≤ a := up_le st hctx.wf hback (Nat.lt_of_le_of_lt h1 hctx.snk_lt)
+  exact hne (Nat.le_antisymm h1 h2)
+
+/-! non-vacuity on the evaluator: the body `let x` ; `y := event` in A's sink scope of `demo2` -/
+
+def idNode (b : Nat) : Ecal.Parse.Node :=
+  .mk "identifier" (some ⟨7, 0, [b], true, false, 0, 1, 1⟩) 0 .none .none [] []
+
+/-- `let x` ; `y := e` with x = byte 120, y = 121 and `e` = 101 … here the right side reads `g` (103) -/
+def demoBody : Ecal.Parse.Node :=
+  .mk "statements" none 0 .none .none
+    [some (.mk "let" none 0 .none .none [some (idNode 120)] []),
+     some (.mk ":=" none 0 .none .none [some (idNode 121), some (idNode 103)] [])] []
+
+theorem demo2_ctx : Ctx 1 1 ["y"] demo2 where
+  wf := demo2_wf
+  snk_lt := by decide
+  sc_lt := by decide
+  below := Up.refl 1
+  fresh v hv a ha hne := by
+    have : v = "y" := by simpa using hv
+    subst this
+    cases ha with
+    | refl => exact absurd rfl hne
+    | step hp h2 =>
+      have : (demo2.scope 1).parent = some 0 := rfl
+      rw [this] at hp; injection hp with e; subst e
+      cases h2 with
+      | refl => rfl
+      | step hq _ =>
+        have : (demo2.scope 0).parent = none := rfl
+        rw [this] at hq; cases hq
+
+/-- non-vacuity of the syntactic hypotheses of `fragment_body_frame` / `sink_body_leaves_others_alone` for
+    `demoBody` (the context is `demo2_ctx`). That `eval 6 1 demoBody` succeeds on `demo2` — result `ok`,
+    A's sink scope then holds `event, x, y`, scope 0 still only `g`, B's scope only `event` — was checked
+    by running the compiled evaluator (`#eval`); the kernel does not reduce `eval` on strings, so that
+    run is not a kernel-checked part of this file. -/
+example : ∀ c ∈ demoBody.children, ∃ c', c = some c' ∧ (IsLet c' ∨ IsAssign ["y"] c') := by
+  intro c hc
+  have : c = some (.mk "let" none 0 .none .none [some (idNode 120)] []) ∨
+      c = some (.mk ":=" none 0 .none .none [some (idNode 121), some (idNode 103)] []) := by
+    simpa [demoBody, Ecal.Parse.Node.children] using hc
+  rcases this with rfl | rfl
+  · exact ⟨_, rfl, Or.inl ⟨idNode 120, _, [120], rfl, rfl, rfl, rfl, rfl, by decide⟩⟩
+  · exact ⟨_, rfl, Or.inr ⟨idNode 121, idNode 103, _, _, [121], [103], rfl, rfl, rfl, rfl, rfl, rfl,
+      by decide, rfl, rfl, rfl, by decide, by decide⟩⟩
 
 end Ecal.Props.C11Frame
